@@ -65,6 +65,9 @@ func RunParse(t *testing.T, c *Case, s Sched, keepLog bool) *Obs {
 	case "reader":
 		br = gosim.NewSimByteReader(sim, c.Src, c.Reader)
 		src, pr = br, br
+	case "reader+writerto":
+		br = gosim.NewSimByteReader(sim, c.Src, c.Reader)
+		src, pr = gosim.SimWriterToReader{SimByteReader: br}, br
 	case "strings.Reader":
 		r := strings.NewReader(c.Src)
 		src, pr = r, lenPos{len(c.Src), r.Len}
